@@ -222,7 +222,8 @@ def two_owners_side(tier, seed):
         if not ok:
             res["problems"].append("the harness (and the crate, hooks on) does not build: " + log[-500:])
             return res
-        cases = [c for c in streams.stream_for("C08", tier, seed) if c.consuming() and c.adapt == "none"]
+        # (zero-sized elements carry no identity: their ledger is a count, decided by the C08 check)
+        cases = [c for c in streams.stream_for("C08", tier, seed) if c.consuming() and c.adapt == "none" and not c.zst]
         seen, uniq = set(), []
         for c in cases:
             if c.id not in seen:
